@@ -75,7 +75,9 @@ def RawKey.eq : RawKey → RawKey → Bool
   | .ref a, .ref b => a == b
   | _, _ => false
 
-/-- non-nil values are opaque tokens -/
+/-- non-nil values are opaque tokens.  `false`, `0`, `-0.0`, `""` and NaN are values like any other
+    (distinct tokens); only nil is "no value": a lookup answers `Option Val`, so "absent" (`none`) can
+    never be confused with a present field that holds `false`. -/
 abbrev Val := Nat
 
 /-- the abstract table -/
